@@ -136,6 +136,27 @@ CHECKS = {
              "concretised and placed as message, profile name, validation name and value of in/containsAll/containsSome; "
              "profileName, sourceShapeName, resultMessage and the verdict are compared.",
         ref="DESIGN.md §6 C13", technique="TLA+ transcription of the escaping chain + exhaustive string enumeration (TLC) replayed into the validator"),
+    "C06": dict(
+        text="spec/Determinism.tla models why the output is a function of the text: the keys of a mapping are visited in "
+             "document order and quantified variables are allocated in visit order (TLC: one terminal state per profile; with "
+             "map-order visits two terminal states with different code - the negative control); the binding is TLC trace "
+             "validation (DetTrace.tla) of (input, kind, hash) observations of the real code: generated code under "
+             "fresh-process conditions and reports under a fixed clock, repeated sequentially, from concurrent goroutines, "
+             "from separate harness processes and from `acv generate` in fresh processes - the first observation of an input "
+             "binds its hash, every later one must agree.",
+        ref="DESIGN.md §6 C06", technique="TLA+ model of visit-order determinism (TLC) + TLC trace validation of repeated/concurrent/cross-process runs",
+        note=TLC_NOTE + " Go's map-order and scheduling nondeterminism cannot be forced without rewriting the code; it is sampled "
+             "(12-40 repetitions, 3-12 processes, 8-16 goroutines per input), which detects an order dependence over k keys with "
+             "probability 1-(1/k!)^(N-1)."),
+    "C18": dict(
+        text="spec/Cli.tla is the state machine of the output path under `acv validate` runs (to file / to stdout, 3 input pairs "
+             "with reports of different length, failing runs) interleaved with external remove / overwrite (empty, shorter, "
+             "longer); TLC checks that the file holds exactly the report after a run and that failures print no report "
+             "(refuted for open-without-truncate) and enumerates every history of 3 (quick) / 4 (thorough) steps; the histories "
+             "are replayed with the real binary built from /repo/cmd and file bytes / stdout / exit status compared with the "
+             "library's output from a separate process (dateCreated masked); generate and normalize are compared with the "
+             "library on fixture inputs; unwritable path and argument errors must fail.",
+        ref="DESIGN.md §6 C18", technique="TLA+ state machine of the output file (TLC) + exhaustive history replay with the real binary"),
 }
 
 NOT_YET = "no check registered yet for this property in the current state of the framework (design in DESIGN.md §6)"
@@ -165,7 +186,7 @@ def main():
         })
     m["engines"][0]["serves_properties"] = sorted(CHECKS)
     if not m["not_applicable"]:
-        m.pop("not_applicable")
+        m["not_applicable"] = []
     json.dump(m, open(os.path.join(HERE, "MANIFEST.json"), "w"), indent=1)
     print("claimed:", sorted(CHECKS))
 
